@@ -61,6 +61,7 @@ type Scenario struct {
 	Pipeline               bool
 	NotifyCh               bool
 	SlowFSM                bool // FSM applications are granted one by one by the environment (after scripted steps, before timers)
+	HBFastPath             bool // heartbeats are handed to the registered heartbeat handler on a transport thread (as NetworkTransport does)
 	Liveness               bool // at the end of the run every call must have resolved if it was issued long ago (virtual time and events)
 	Fine                   bool // branch on thread steps (preemption bounded)
 	RCL                    bool // RestoreCommittedLogs
@@ -608,6 +609,18 @@ func (w *World) deliver(m *Msg, discard bool) {
 	rpc := raft.RPC{Command: m.Req, RespChan: ch}
 	if m.Body != nil || m.Kind == "IS" {
 		rpc.Reader = bytes.NewReader(m.Body)
+	}
+	if w.sc.HBFastPath && m.Kind == "HB" && tn.trans.hb != nil {
+		// heartbeat fast path: the handler runs on a thread of the transport, concurrently with the main loop
+		hb := tn.trans.hb
+		if !discard {
+			m.St = mDelivered
+			m.ToInc = tn.inc
+			m.DelivAt = w.events
+		}
+		w.mon.OnDeliver(m, tn.inc, discard)
+		vsched.GoNamed(fmt.Sprintf("hb-n%d", tn.id), tn.group(), func() { hb(rpc) })
+		return
 	}
 	select {
 	case tn.trans.cons <- rpc:
